@@ -20,10 +20,45 @@ Fixpoint dump_eqb (a b : list (pkey * list (bytes * bytes))) : bool :=
   | _, _ => false
   end.
 
+Fixpoint pks_eqb (a b : list pkey) : bool :=
+  match a, b with
+  | [], [] => true
+  | x :: a', y :: b' => pk_eqb x y && pks_eqb a' b'
+  | _, _ => false
+  end.
+Definition upd_eqb (a b : db_update) : bool :=
+  match a, b with USet x, USet y => beqb x y | UDelete, UDelete => true | _, _ => false end.
+Fixpoint delta_eqb (a b : list (bytes * db_update)) : bool :=
+  match a, b with
+  | [], [] => true
+  | (k, v) :: a', (k', v') :: b' => beqb k k' && upd_eqb v v' && delta_eqb a' b'
+  | _, _ => false
+  end.
+Definition part_eqb (a b : part_updates) : bool :=
+  match a, b with
+  | PDelta x, PDelta y => delta_eqb x y
+  | PReset x, PReset y => entries_eqb x y
+  | _, _ => false
+  end.
+Fixpoint node_eqb (a b : node_updates) : bool :=
+  match a, b with
+  | [], [] => true
+  | (k, v) :: a', (k', v') :: b' => (k =? k') && part_eqb v v' && node_eqb a' b'
+  | _, _ => false
+  end.
+Fixpoint updates_eqb (a b : db_updates) : bool :=
+  match a, b with
+  | [], [] => true
+  | (k, v) :: a', (k', v') :: b' => beqb k k' && node_eqb v v' && updates_eqb a' b'
+  | _, _ => false
+  end.
+
 Inductive op :=
 | OCommit (u : db_updates)                                      (* overlay.commit(u) *)
 | OGet (pk : pkey) (sk : bytes) (out : option bytes)            (* get_raw_substate_by_db_key *)
 | OList (pk : pkey) (from : option bytes) (out : list (bytes * bytes))  (* list_raw_values_from_db_key, collected *)
+| OParts (out : list pkey)                                      (* overlay.list_partition_keys(), in the order yielded *)
+| OUpdates (u : db_updates)                                     (* overlay.database_updates(), in the order of the IndexMaps *)
 | OMerge (dump : list (pkey * list (bytes * bytes))).           (* commit_overlay_into_root_store, then the
                                                                    root's partitions (in list_partition_keys order) and their full listings *)
 
@@ -37,6 +72,15 @@ Fixpoint run (o : overlay) (spec : memdb) (ops : list op) : bool :=
       opt_bytes_eqb (ov_get o pk sk) out && opt_bytes_eqb (mem_get spec pk sk) out && run o spec r
   | OList pk from out :: r =>
       entries_eqb (ov_list o pk from) out && entries_eqb (mem_list spec pk from) out && run o spec r
+  | OParts out :: r =>
+      (* the model as written; and the proved relation to the specification: the spec's partitions are
+         the yielded ones with a non-empty listing *)
+      pks_eqb (ov_list_partition_keys o) out &&
+      pks_eqb (mem_list_partition_keys spec)
+              (filter (fun pk => match mem_list spec pk None with [] => false | _ => true end) out) &&
+      run o spec r
+  | OUpdates u :: r =>
+      updates_eqb (ov_database_updates o) u && dump_eqb (mem_commit (ov_root o) u) spec && run o spec r
   | OMerge dump :: r =>
       let o' := ov_commit_into_root o in
       dump_eqb (ov_root o') dump && dump_eqb spec dump && run o' spec r
